@@ -37,12 +37,18 @@ def run(ctx):
     n = ctx.scale(350, 6000)
     flagsets = [0, FLAG["NEW_COST_MODEL"], gen_prog.MEMPOOL_MODE]
     pool = runlib.program_pool(ctx, n, n_unknown=ctx.scale(40, 300), flags_for_guards=(0, FLAG["NEW_COST_MODEL"]))
+    # directed: finding F6 (pre-hard-fork unknown-operator cost product wrapping 64 bits) also breaks
+    # tightness: the reported cost is smaller than the base that is checked against the budget
+    f6 = gen_prog.op(bytes.fromhex("7fd0110580"), gen_prog.q(gen.Rep(0x41, 1 << 20)), gen_prog.q(gen.Rep(0x42, 1 << 20)))
+    pool.append((gen.tt(f6), gen.tt(b""), "directed-F6"))
     base = []
     for p, e, tag in pool:
         if tag.startswith("guard[f="):
             f = int(tag.split("=")[1].split()[0])
             if r.random() < 0.3:
                 f |= gen_prog.random_flags(r, 0.15, exclude=FLAG["NEW_COST_MODEL"])
+        elif tag == "directed-F6":
+            f = 0
         else:
             f = r.choice(flagsets) if r.random() < 0.5 else gen_prog.random_flags(r)
         base.append((p, e, f))
@@ -67,7 +73,8 @@ def run(ctx):
         runlib.count_case(ctx, l)
         k, c2, v2, _ = parse_obs(o)
         exempt_possible = bool(f & FLAG["NEW_COST_MODEL"]) and runlib.has_softfork(p)
-        rep = {"family": "run", "case": l[:3000], "impl": o, "unlimited_cost": c}
+        rep = {"family": "run", "case": l[:3000], "impl": o, "unlimited_cost": c,
+               "class": "F6" if ("a7fd0110580;" in p and not (f & FLAG["NEW_COST_MODEL"])) else "other"}
         if k == "ok":
             if c2 > b:
                 ctx.violation("run succeeded with cost %d above its budget %d" % (c2, b), rep)
